@@ -22,18 +22,31 @@ def _tick(v):
     return None
 
 
-def m_offgrid_modify(v, args):
-    """The history contains a modify request (direct or as an event) whose new price is not a
-    multiple of the tick size."""
+def _ticks(v):
+    c = v.get("payload", {}).get("cfg") or {}
+    if isinstance(c.get("ticks"), list):
+        return c["ticks"]
+    for l in _labels(v):
+        if isinstance(l, dict) and l.get("op") == "reset" and isinstance(l.get("ticks"), list):
+            return l["ticks"]
     t = _tick(v)
-    if not t or t <= 1:
+    return [t] if t else None
+
+
+def m_offgrid_modify(v, args):
+    """The history contains a modify request (direct, as an event, or as a queued instruction) whose
+    new price is not a multiple of the tick size of the book it addresses."""
+    ticks = _ticks(v)
+    if not ticks:
         return False
     for l in _labels(v):
         if not isinstance(l, dict):
             continue
         if l.get("op") == "modify" or (l.get("op") in ("event", "submit") and l.get("k") == "modify"):
+            a = l.get("a", 0) if isinstance(l.get("a", 0), int) else 0
+            t = ticks[a] if a < len(ticks) else ticks[0]
             p = l.get("p")
-            if isinstance(p, int) and p >= 0 and p % t != 0:
+            if t and t > 1 and isinstance(p, int) and p >= 0 and p % t != 0:
                 return True
     return False
 
